@@ -933,6 +933,9 @@ class TypeEngine:
             return frozenset({('ext', 'object')})
         if short == 'ExitStack':
             return frozenset({('ext', 'ExitStack')})
+        if short == 'partial' and args:
+            # functools.partial(f, ...): calling it calls f
+            return self.expr_type(args[0], frame)
         if short == 'next' and args:
             return self.elem_type(self.expr_type(args[0], frame))
         if short == 'iter' and args:
